@@ -98,6 +98,7 @@ def build_sandbox(root: Path, layout: str):
         os.symlink('newkey', st / 'dangling_in')
         os.symlink('../../outside/secret', st / 'k' / 'file_link')
         os.symlink('../a/f', st / 'k' / 'sibling_link')
+        os.symlink('../../outside/sub', st / 'k' / 'dir_link')      # a directory symlink inside a key directory
         os.symlink('../outside/secret', st / 'file_link')
         sib = 'real_storage2' if layout == 'via-symlink' else 'storage_backup'
         os.symlink(f'../{sib}/K2', st / 'link_prefix')
@@ -234,12 +235,25 @@ def _work(item):
 
 OUT_TOKEN = '<<OUTSIDE_ABS>>'
 
-MUTATIONS = ('key->symlink-outside-dir', 'key->symlink-sibling-key', 'file->symlink-outside-file', 'key->symlink-prefix-sibling')
+MUTATIONS = ('key->symlink-outside-dir', 'key->symlink-sibling-key', 'file->symlink-outside-file', 'key->symlink-prefix-sibling',
+             'dir-symlink-inside-key', 'chdir')
 
 
 def mutate(st: Path, root: Path, key: str, how: str):
     """Environment change between two operations of a history."""
     kp = st / key
+    if how == 'chdir':
+        # the process changes its working directory (a task may do that); a same-named directory exists there
+        (root / 'outside' / 'storage' / key).mkdir(parents=True, exist_ok=True)
+        (root / 'outside' / 'storage' / key / 'f').write_text('ELSEWHERE')
+        os.chdir(root / 'outside')
+        return
+    if how == 'dir-symlink-inside-key':
+        kp.mkdir(exist_ok=True)
+        lp = kp / 'linked_dir'
+        if not (lp.exists() or lp.is_symlink()):
+            os.symlink('../../outside/sub', lp)
+        return
     if how.startswith('key->'):
         if kp.is_symlink() or kp.is_file():
             kp.unlink()
@@ -280,13 +294,17 @@ def _work_hist(batch):
             root = os.path.join(top, f'h{i}')
             st = build_sandbox(Path(root), 'keys')
             st_real = os.path.realpath(st)
-            storage = LocalStorage(os.path.join(root, 'storage'), with_gitignore=False)
+            cwd0 = os.getcwd()
+            os.chdir(root)
+            # built from a *relative* path while the working directory is the sandbox root
+            storage = LocalStorage('storage', with_gitignore=False)
             op1 = (first[0], key) + tuple(first[1:])
             run_case(storage, st_real, root, op1)
             mutate(Path(st_real), Path(root), key, how)
             before = snapshot(Path(root))
             op2 = (second[0], key) + tuple(second[1:])
             raised, audit = run_case(storage, st_real, root, op2)
+            os.chdir(cwd0)
             after = snapshot(Path(root))
             for k, msg in judge(op2, raised, before, after, audit, st_real, root):
                 if how == 'key->symlink-sibling-key' and k in ('several-keys-touched',):
